@@ -12,8 +12,7 @@ def bug_native_eq(d):
     """OP_EQ / OP_NE on NATIVE Python operands use Python's == (pinned by tests/xlfunctions/test_operator.py:
     OP_EQ(True, 1) is True): covered only when the observed result is exactly Python's native (in)equality."""
     c = d['case']
-    path = d.get('clause') if d['kind'] == 'call' else c.get('path')
-    if path != 'direct' or c['f'] not in ('OP_EQ', 'OP_NE') or d['observed'].get('t') != 'bool':
+    if 'direct' not in (d.get('clause'), c.get('path')) or c['f'] not in ('OP_EQ', 'OP_NE') or d['observed'].get('t') != 'bool':
         return False
     try:
         x, y = py_native(c['args'][0]), py_native(c['args'][1])
@@ -72,6 +71,87 @@ def record(chunk):
     return out
 
 
+def law_values(rng, n):
+    """python values for the law trace: doubles that differ in the last places, texts with characters between the
+    upper- and lower-case letters, ordinary numbers / texts / booleans"""
+    base = [0.1 + 0.2, 0.3, 1.0000000000000002, 1.0, 1 / 3, 0.333333333333333, 0.3333333333333333, 1e15 + 1, 1e15, 2 ** 53 + 2.0, 2.0 ** 53,
+            -0.1 - 0.2, -0.3, 100 * 1.1, 110.00000000000001, 110,
+            'a', 'A', '_', 'a_', 'aB', 'total_2020', 'totals', 'x^2', 'x2', 'X2', '[', ']', '`', '\\', 'Z', 'z', 'x_y', 'xy', '', ' ',
+            True, False, 0, 1, -1, 0.5]
+    out = list(base)
+    chars = 'aAbBzZ_^[]`\\09 '
+    for _ in range(n):
+        r = rng.random()
+        if r < 0.5:
+            out.append(''.join(rng.choice(chars) for _ in range(rng.randint(1, 4))))
+        elif r < 0.8:
+            x = rng.choice([0.1, 0.7, 1.1, 2.3, 1 / 3, 1e-8, 123456.789])
+            out.append(x * rng.randint(1, 9) / rng.randint(1, 9) if rng.random() < 0.5 else x + rng.choice([0.2, 1e-16, 2e-16, 0.6]))
+        else:
+            out.append(rng.randint(-3, 3))
+    return out
+
+
+def law_worker(items):
+    L = xl.lib()
+    F = L.xl.FUNCTIONS
+    out = []
+
+    def tv(op, x, y, via):
+        if via == 'wrapped':
+            x, y = L.ft.ExcelType.cast_from_native(x), L.ft.ExcelType.cast_from_native(y)
+            r = F[op](x, y)
+        else:
+            cells = {'Sheet1!A1': x, 'Sheet1!B1': y}
+            m = L.ModelCompiler().read_and_parse_dict({'Sheet1!A1': 0, 'Sheet1!B1': 0, 'Sheet1!C1': '=A1' + calls.OPSYM[op] + 'B1'})
+            ev = L.Evaluator(m)
+            for a, v in cells.items():
+                ev.set_cell_value(a, v)
+            r = ev.evaluate('Sheet1!C1')
+        a = xl.to_abs(r)
+        if a['t'] != 'bool':
+            raise ValueError(f'{op}({x!r},{y!r}) -> {a}')
+        return a['v']
+    for kind, vals, via in items:
+        try:
+            if kind == 'pair':
+                a, b = vals
+                e = {'kind': 'pair', 'via': via, 'a': repr(a), 'b': repr(b),
+                     'lt': tv('OP_LT', a, b, via), 'eq': tv('OP_EQ', a, b, via), 'gt': tv('OP_GT', a, b, via),
+                     'le': tv('OP_LE', a, b, via), 'ge': tv('OP_GE', a, b, via), 'ne': tv('OP_NE', a, b, via),
+                     'rgt': tv('OP_GT', b, a, via), 'rlt': tv('OP_LT', b, a, via), 'req': tv('OP_EQ', b, a, via)}
+            else:
+                a, b, c = vals
+                e = {'kind': 'triple', 'via': via, 'a': repr(a), 'b': repr(b), 'c': repr(c),
+                     'ab': tv('OP_LT', a, b, via), 'bc': tv('OP_LT', b, c, via), 'ac': tv('OP_LT', a, c, via)}
+        except BaseException as ex:      # noqa
+            if isinstance(ex, (KeyboardInterrupt, SystemExit)):
+                raise
+            e = {'kind': 'pair', 'via': via, 'a': repr(vals[0]), 'b': repr(vals[1]), 'lt': False, 'eq': False, 'gt': False,
+                 'le': False, 'ge': False, 'ne': False, 'rgt': False, 'rlt': False, 'req': False, 'exc': str(ex)[:120]}
+        out.append(e)
+    return out
+
+
+def law_trace(run, npairs, ntriples):
+    """the order laws re-checked by TLC on the OBSERVED truth table, with no order assumed for the operands"""
+    rng = random.Random(run.seed * 101 + 9)
+    vals = law_values(rng, 60)
+    items = []
+    for i in range(npairs):
+        a = rng.choice(vals)
+        b = rng.choice(vals[:16] if isinstance(a, float) and rng.random() < 0.7 else vals)
+        items.append(('pair', (a, b), 'wrapped' if i % 2 else 'formula'))
+    for i in range(ntriples):
+        pool_ = [v for v in vals if isinstance(v, str)] if rng.random() < 0.5 else [v for v in vals if isinstance(v, (int, float)) and not isinstance(v, bool)]
+        items.append(('triple', (rng.choice(pool_), rng.choice(pool_), rng.choice(pool_)), 'wrapped'))
+    events = [e for part in pool.pmap(law_worker, items) for e in part]
+    run.evaluations += 9 * len(events)
+    trace.validate(run, events, module='Trace_C09Laws', kind='law', name='laws',
+                   features=lambda e, x, v: {'law': v, 'via': e.get('via'), 'types': [e['a'][:1] in '\'"', e['b'][:1] in '\'"']})
+    run.notes['law_trace_events'] = len(events)
+
+
 def run(run):
     r = run.tlc('MC_C09', 'C09_quick.cfg' if run.tier == 'quick' else 'C09_thorough.cfg', dump=True, timeout=900)
     blocks = [b for b in pool.dump_blocks(r.dump, skip_substr='"pending"') if 'third |-> [t |-> "blank"]' in b]
@@ -83,6 +163,7 @@ def run(run):
     trace.validate(run, recorded, features=lambda e, x, v: {'f': e['f'], 'path': e['path'], 'verdict': v,
                                                            'types': [e['args'][0]['t'], e['args'][1]['t']]})
     run.notes['trace_events'] = len(recorded)
+    law_trace(run, 3000 if run.tier == 'quick' else 30000, 1500 if run.tier == 'quick' else 15000)
     run.rule = ('all ordered pairs of 24 values (ints, fractions, negative, zero, dates with and without time, texts: empty, numeric-looking, '
                 'case variants, prefixes, "true"/"FALSE", blank-only, non-ASCII; booleans; blank) x 6 operators, through native, wrapped and '
                 'formula (=X op Y over literals / cells) paths; all 24^3 triples for transitivity on the spec; seeded random pairs validated by TLC')
